@@ -96,6 +96,10 @@ func FromTokens(t int, ts TLCSchedule) Schedule {
 			if k.Cb != "" {
 				cur.Cbs = append(cur.Cbs, k.Cb)
 			}
+		case "cb": // a second callback decided in the same model step
+			if cur != nil && k.Cb != "" {
+				cur.Cbs = append(cur.Cbs, k.Cb)
+			}
 		default: // addc addv poll deliver csvtick
 			flush()
 			cur = &Step{Cmd: k.A, Start: k.Start, P: k.P, F: k.F}
